@@ -28,6 +28,36 @@ pub mod error;
 pub mod function;
 pub mod util;
 
+/// Verification hook (only with `--cfg oxidd_verif`): a process-wide callback
+/// invoked at instrumented points of the manager and apply cache
+/// implementations (unique table access, slot allocation, garbage collection
+/// phases, cache lookups/insertions). A test harness installs a function that
+/// perturbs the thread schedule (yield, spin) there; without a callback a
+/// yield point is a relaxed load.
+#[cfg(oxidd_verif)]
+pub mod verif {
+    use std::sync::atomic::{AtomicUsize, Ordering::Relaxed};
+
+    static YIELD_HOOK: AtomicUsize = AtomicUsize::new(0);
+
+    /// Install (`Some`) or remove (`None`) the callback
+    pub fn set_yield_hook(f: Option<fn(u32)>) {
+        YIELD_HOOK.store(f.map_or(0, |f| f as usize), Relaxed);
+    }
+
+    /// Instrumented point `id`
+    #[inline]
+    pub fn yield_point(id: u32) {
+        let p = YIELD_HOOK.load(Relaxed);
+        if p != 0 {
+            // SAFETY: only `set_yield_hook` stores non-zero values, and these
+            // are `fn(u32)` pointers
+            let f: fn(u32) = unsafe { std::mem::transmute(p) };
+            f(id);
+        }
+    }
+}
+
 use error::DuplicateVarName;
 use util::{AllocResult, Borrowed, DropWith, NodeSet};
 
